@@ -136,6 +136,41 @@ def _ranges(lo, hi, w):
 
 _NONE = [['fault_at == -1', 'phase == 0']]
 _Z = ['c0 == 0', 'c1 == 0']
+def shutdown_during_callback(transfer, at, size):
+    """C18.cb: another thread calls shutdown() at a symbolic scheduling point of a single transfer whose on_done callback
+    is slow - also the moment when the transfer is already finished and untracked but its callbacks are still running.
+    Whenever shutdown() returns, nothing of the manager may happen afterwards."""
+    S = ns.Sched([])
+    c = N.build(transfer, size, size + 1, 5 * 1024 ** 2, size + 1, S, subs=1)
+    c.subs[0].slow_done = True
+    env, m = c.env, c.manager
+    st = {'returned': None}
+
+    def fire():
+        m.shutdown()
+        st['returned'] = env.clock
+    S.cancel_at = at
+    S.cancel_fn = fire
+    try:
+        S.drain()
+        if st['returned'] is None:
+            m.shutdown()
+            st['returned'] = env.clock
+    except ns.Stuck:
+        return '~'
+    except ns.Deadlock as d:
+        return '~' if S.stuck else 'c18: ' + str(d)
+    if S.stuck:
+        return '~'
+    if c.subs[0].done != 1:
+        return 'c18: on_done not exactly once'
+    if env.clock != st['returned']:
+        return 'c18: request / write / callback after shutdown returned'
+    if not S.quiescent():
+        return 'c18: shutdown returned with tasks queued or running'
+    return None
+
+
 def kbd_shutdown(size, thr, chunk, io, shutdown_top, c0):
     """C18.kbd: Ctrl-C arrives while shutdown() (called before the shutdown_top-th task start) is waiting"""
     return shared('shutdown-kbd', size, thr, chunk, io, -1, 0, -1, 0, c0, 0, shutdown_top)
@@ -148,6 +183,14 @@ def early_shutdown(size, thr, chunk, io, fault_at, phase, shutdown_top, c0):
 
 
 OBLIGATIONS = [
+    dict(id='C18.cb', impl='shutdown_during_callback', params='at: int, size: int',
+         cases=[('delete',), ('down-seekable',), ('up-path',)], pre=['-1 <= at <= 40', '1 <= size <= 100'],
+         timeout=(170, 900),
+         bounds='one single-request transfer with a slow on_done subscriber; shutdown() from another thread at a symbolic '
+                'scheduling point (every environment call and the entry of on_done); schedules in which that shutdown '
+                'could not return yet are pruned',
+         encodes=['TransferManager._shutdown', 'TransferCoordinatorController', 'announce_done / done callbacks',
+                  'BoundedExecutor.shutdown'], assumptions=['S1', 'nested (LIFO) schedules only']),
     dict(id='C18.kbd', impl='kbd_shutdown', params='size: int, thr: int, chunk: int, io: int, shutdown_top: int, c0: int',
          pre=_SH[:-2] + ['0 <= c0 <= 2', '0 <= shutdown_top <= 8'],
          splits=[['c0 == 0', 'shutdown_top <= 2'], ['c0 == 0', '2 < shutdown_top <= 5'], ['c0 == 0', '5 < shutdown_top']],
